@@ -565,7 +565,7 @@ impl NetworkBehaviour for Behaviour {
                         .get(&event_source)
                         .map(|cs| cs.values().filter(|status| status.is_active()).count())
                         .unwrap_or(0)
-                        > self.config.max_reservations_per_peer)
+                        >= self.config.max_reservations_per_peer)
                     // Deny if it exceeds `max_reservations`.
                     || self
                         .connections
